@@ -257,3 +257,60 @@ def _(c):
     c.assume("scope: the TypedDict-vs-TypedDict branch (dict displays and dict literals on the right are covered by the bounded type-pair check only); "
              "rules per key: a key missing on the right must be non-required, read-only and typed to accept the right's extra-keys type; a present key must not weaken "
              "requiredness, must not be read-only where ours is mutable, must be covariant, and invariant when ours is mutable")
+
+
+@REG.static_check("C04.unify_bounds_maps_owns_its_lists", props=["C04", "C10"])
+def _():
+    """frame condition the value-based VC encoding cannot express (lists are values there, not references): unify_bounds_maps must neither
+    mutate the bounds lists of the maps it is given nor store one of them in its result (the maps are cached and shared: TypeObject's protocol
+    cache returns the same map object on every hit).  Mechanical check of the function's AST, re-read on every run."""
+    import ast as _ast
+    from pyvc import extract
+    fn = extract.get_module("pyanalyze.value").funcs.get("unify_bounds_maps")
+    if fn is None:
+        return [{"name": "C04.unify_bounds_maps_owns_its_lists:present", "ok": False, "detail": "pyanalyze.value.unify_bounds_maps not found"}]
+    tainted = {a.arg for a in fn.args.args}
+    changed = True
+    while changed:
+        changed = False
+        for n in _ast.walk(fn):
+            src = tgt = None
+            if isinstance(n, (_ast.For, _ast.comprehension)):
+                src, tgt = n.iter, n.target
+            elif isinstance(n, _ast.Assign) and len(n.targets) == 1 and isinstance(n.targets[0], (_ast.Name, _ast.Tuple)):
+                src, tgt = n.value, n.targets[0]
+                if not bare_ref(src, tainted):
+                    src = None
+            if src is not None and any(isinstance(x, _ast.Name) and x.id in tainted for x in _ast.walk(src)):
+                for x in _ast.walk(tgt):
+                    if isinstance(x, _ast.Name) and x.id not in tainted:
+                        tainted.add(x.id)
+                        changed = True
+    MUT = {"append", "extend", "insert", "pop", "remove", "clear", "sort", "reverse", "update", "setdefault", "add", "discard", "__iadd__"}
+    bad = []
+    for n in _ast.walk(fn):
+        if isinstance(n, _ast.Call) and isinstance(n.func, _ast.Attribute) and n.func.attr in MUT and bare_ref(n.func.value, tainted):
+            bad.append(f"line {n.lineno}: `{_ast.unparse(n)[:80]}` mutates an object that belongs to an argument")
+        if isinstance(n, _ast.Call) and isinstance(n.func, _ast.Attribute) and n.func.attr == "setdefault" and len(n.args) == 2 and bare_ref(n.args[1], tainted):
+            bad.append(f"line {n.lineno}: `{_ast.unparse(n)[:80]}` stores an argument's own list in the result")
+        if isinstance(n, _ast.Assign) and any(isinstance(t, _ast.Subscript) for t in n.targets) and bare_ref(n.value, tainted):
+            bad.append(f"line {n.lineno}: `{_ast.unparse(n)[:80]}` stores an argument's own list in the result (a later extend would write through to the caller's map)")
+        if isinstance(n, _ast.AugAssign) and bare_ref(n.target, tainted):
+            bad.append(f"line {n.lineno}: `{_ast.unparse(n)[:80]}` updates an object that belongs to an argument in place")
+    return [{"name": "C04.unify_bounds_maps_owns_its_lists", "ok": not bad, "detail": "; ".join(bad) or "no argument-owned list is mutated or stored in the result"}]
+
+
+def bare_ref(e, tainted):
+    """the expression evaluates to (possibly) the very object a tainted name refers to: the name itself, a conditional / boolean choice of it, a subscript or attribute of it"""
+    import ast as _ast
+    if isinstance(e, _ast.Name):
+        return e.id in tainted
+    if isinstance(e, _ast.IfExp):
+        return bare_ref(e.body, tainted) or bare_ref(e.orelse, tainted)
+    if isinstance(e, _ast.BoolOp):
+        return any(bare_ref(v, tainted) for v in e.values)
+    if isinstance(e, (_ast.Subscript, _ast.Attribute)):
+        return bare_ref(e.value, tainted)
+    if isinstance(e, _ast.NamedExpr):
+        return bare_ref(e.value, tainted)
+    return False
